@@ -51,6 +51,8 @@ type vf39Run struct {
 	Ops []vf39Op  `json:"ops"`
 	Obs []vf39Obs `json:"obs"`
 	Ms  int64     `json:"ms"`
+	// the walk was cut short because the next call would crash the process (see vf39World.unsafe)
+	Truncated string `json:"truncated"`
 }
 
 // the three abstract destinations: two protocols, and a destination that differs from "a" only in
@@ -163,6 +165,22 @@ func (w *vf39World) observe() vf39Obs {
 	return o
 }
 
+// unsafe says why the next call cannot be made without crashing the test binary (the real
+// start() of a forwarder that already runs overwrites its done channel: double close; the real
+// stop() of a forwarder that was never started calls a nil cancel function). This is not a verdict:
+// the walk is cut and what was observed so far goes to TLC.
+func (w *vf39World) unsafe(op string) string {
+	for _, dh := range w.m.destHandlers {
+		if op == "Start" && vf39Open(dh.done) {
+			return "Start would start a forwarder that already runs"
+		}
+		if op == "Stop" && dh.ctxCancel == nil {
+			return "Stop would stop a forwarder that was never started"
+		}
+	}
+	return ""
+}
+
 func vf39Exec(t testing.TB, r *vf39Run) {
 	t0 := time.Now()
 	w := &vf39World{ids: map[uuid.UUID]int{}, all: map[*DestHandler]int{}, runs: map[chan struct{}]int{}}
@@ -183,6 +201,13 @@ func vf39Exec(t testing.TB, r *vf39Run) {
 	for k, op := range r.Ops {
 		if op.L == nil {
 			r.Ops[k].L = []string{}
+		}
+		if k > 0 {
+			if why := w.unsafe(op.K); why != "" {
+				r.Truncated = why
+				r.Ops = r.Ops[:k]
+				break
+			}
 		}
 		switch op.K {
 		case "Initialize":
